@@ -27,3 +27,102 @@ func Bubble(t *testing.T, f func()) (panicMsg string) {
 
 // Wait blocks until every other goroutine of the bubble is durably blocked.
 func Wait() { synctest.Wait() }
+
+// BubbleGoroutines returns the stacks of all goroutines of the current bubble except the caller's.
+// Call it after tearing everything down and Wait(): whatever is listed has leaked.
+func BubbleGoroutines() []string {
+	buf := make([]byte, 1<<20)
+	n := runtime.Stack(buf, true)
+	var out []string
+	stacks := splitStacks(string(buf[:n]))
+	if len(stacks) == 0 {
+		return nil
+	}
+	mine := bubbleTag(stacks[0]) // the calling goroutine comes first
+	if mine == "" {
+		return nil
+	}
+	for _, g := range stacks[1:] {
+		// goroutines leaked by earlier bubbles (earlier failing cases) stay in the process: only
+		// the current bubble's goroutines count
+		if bubbleTag(g) == mine && !containsStr(g, "internal/synctest.Run(") && !containsStr(g, "testing/synctest.testingSynctestTest(") {
+			out = append(out, g)
+		}
+	}
+	return out
+}
+
+func splitStacks(s string) []string {
+	var out []string
+	cur := ""
+	for _, line := range splitLines(s) {
+		if len(line) > 10 && line[:10] == "goroutine " && cur != "" {
+			out = append(out, cur)
+			cur = ""
+		}
+		cur += line + "\n"
+	}
+	if cur != "" {
+		out = append(out, cur)
+	}
+	return out
+}
+
+func splitLines(s string) []string {
+	var out []string
+	start := 0
+	for i := 0; i < len(s); i++ {
+		if s[i] == '\n' {
+			out = append(out, s[start:i])
+			start = i + 1
+		}
+	}
+	if start < len(s) {
+		out = append(out, s[start:])
+	}
+	return out
+}
+
+func containsBubble(g string) bool {
+	// header looks like: goroutine 12 [chan receive, synctest bubble 3]:
+	for i := 0; i+15 <= len(g) && i < 200; i++ {
+		if g[i] == '\n' {
+			break
+		}
+		if g[i:i+15] == "synctest bubble" {
+			return true
+		}
+	}
+	return false
+}
+
+func containsStr(s, sub string) bool {
+	for i := 0; i+len(sub) <= len(s); i++ {
+		if s[i:i+len(sub)] == sub {
+			return true
+		}
+	}
+	return false
+}
+
+// bubbleTag extracts "synctest bubble N" from a goroutine header line.
+func bubbleTag(g string) string {
+	end := len(g)
+	for i := 0; i < len(g); i++ {
+		if g[i] == '\n' {
+			end = i
+			break
+		}
+	}
+	h := g[:end]
+	for i := 0; i+15 <= len(h); i++ {
+		if h[i:i+15] == "synctest bubble" {
+			j := i + 15
+			for j < len(h) && (h[j] == ' ' || (h[j] >= '0' && h[j] <= '9')) {
+				j++
+			}
+			return h[i:j]
+		}
+	}
+	return ""
+}
